@@ -200,7 +200,10 @@ class Gen:
         if p == 'not':
             return ('ENot', self.expr(T_BOOL, env, d - 1))
         if p == 'cmp':
-            return ('EBin', r.choice(['BGt', 'BLt', 'BGe', 'BLe']), self.expr(T_INT, env, d - 1), self.expr(T_INT, env, d - 1))
+            a = self.expr(T_INT, env, d - 1)
+            # equal operands often: the boundary of >= and <= is where a wrong lowering shows
+            b = a if r.chance(1, 3) else self.expr(T_INT, env, d - 1)
+            return ('EBin', r.choice(['BGt', 'BLt', 'BGe', 'BLe']), a, b)
         if p == 'eq':
             et = r.choice(self.types)
             return ('EBin', r.choice(['BEq', 'BNe']), self.expr(et, env, d - 1), self.expr(et, env, d - 1))
